@@ -478,6 +478,13 @@ def is_exact(terms):
     return not any(k in UNINTERP or k.startswith('uf_') for k in apps)
 
 
+def is_analytic_free(terms):
+    """no uninterpreted ANALYTIC function (log, exp, ...) takes part: a counter-model then only chooses values of the user-supplied
+    functions the contract quantifies over (targets, operators, draws), so it refutes the contract as stated"""
+    apps = uninterp_apps(terms)
+    return not any(k in UNINTERP for k in apps)
+
+
 class Verdict:
     __slots__ = ('status', 'backend', 'time', 'model', 'exact', 'reason', 'smt2')
     def __init__(self, status, backend, time_, model=None, exact=True, reason='', smt2=None):
